@@ -504,7 +504,76 @@ def dot_and_sibling_case(pr):
     return None
 
 
-def cases(seed):
+def random_history_case(seed, k):
+    """a seeded random history of edits between invocations, against a reference model: after each invocation the
+    script must have run iff the set of declared files or the content of one of them changed since the last run that
+    completed (the first invocation always runs)"""
+    import random
+    rnd = random.Random(seed * 1000 + k)
+    ext = rnd.choice([None, ["txt"], ["txt", "csv"]])
+
+    def matches(name):
+        return ext is None or any(name.endswith("." + e) for e in ext)
+
+    def fn(pr):
+        files = {"src/a.txt": "a0", "src/b.csv": "b0", "src/d/c.txt": "c0", "src/d/e.md": "e0"}
+        for f, c in files.items():
+            pr.write(f, c)
+        res = {"paths": ["src"]}
+        if ext:
+            res["extensions"] = ext
+        pr.write("zinoma.yml", yml({"t": _t([res], None)}))
+        pr.run("t")
+        if not _ran(pr):
+            return {"property": "C02", "expected": "first invocation runs the script", "observed": "skipped"}
+        n = 0
+        for step in range(6):
+            ops = []
+            changed = False
+            for _ in range(rnd.randint(0, 2)):
+                op = rnd.choice(["edit", "add", "remove", "rename", "noop"])
+                names = sorted(files)
+                if op == "edit" and names:
+                    f = rnd.choice(names)
+                    n += 1
+                    files[f] = "edit%d-%s" % (n, "x" * n)
+                    pr.edit(f, files[f])
+                    changed |= matches(f)
+                elif op == "add":
+                    n += 1
+                    f = "src/%s/new%d.%s" % (rnd.choice([".", "d", "z"]), n, rnd.choice(["txt", "csv", "md"]))
+                    f = os.path.normpath(f)
+                    files[f] = "new%d" % n
+                    pr.write(f, files[f], record=False)
+                    pr.commands.append("create %s" % f)
+                    changed |= matches(f)
+                elif op == "remove" and len(names) > 1:
+                    f = rnd.choice(names)
+                    del files[f]
+                    pr.remove(f)
+                    changed |= matches(f)
+                elif op == "rename" and names:
+                    f = rnd.choice(names)
+                    n += 1
+                    g = os.path.join(os.path.dirname(f), "ren%d%s" % (n, os.path.splitext(f)[1]))
+                    files[g] = files.pop(f)
+                    os.rename(pr.path(f), pr.path(g))
+                    pr.commands.append("mv %s %s" % (f, g))
+                    changed |= matches(f) or matches(g)
+                ops.append(op)
+            pr.clear_log()
+            r = pr.run("t")
+            if r.rc != 0:
+                return {"property": "C02", "expected": "exit 0", "observed": "exit %s" % r.rc, "zinoma": r.brief()}
+            if changed and not _ran(pr):
+                return {"property": ["C02", "C15"], "expected": "step %d (%s; extensions %s): a declared file was added, removed, renamed or rewritten, so the script runs" % (step, ops, ext), "observed": "skipped", "zinoma": r.brief()}
+            if not changed and _ran(pr):
+                return {"property": ["C03", "C15"], "expected": "step %d (%s; extensions %s): nothing among the declared files changed, so the target is skipped" % (step, ops, ext), "observed": "script ran", "zinoma": r.brief()}
+        return None
+    return fn
+
+
+def cases(seed, tier="quick"):
     C = lambda n, fn, what: Case("incr", n, fn, what)
     out = [
         C("edit-input", skip_then("edit src/a.txt", lambda p: p.edit("src/a.txt", "a2-longer"), True, "C02"), "rewritten input forces the build"),
@@ -520,6 +589,8 @@ def cases(seed):
         C("ext-dotted", skip_then("edit src/b.csv (extensions: [.csv])", lambda p: p.edit("src/b.csv", "b2-longer"), True, ["C15", "C02"], ext=[".csv"]), "extension given with its dot"),
         C("ext-multi-dot", skip_then("edit src/d.in.csv (extensions: [csv])", lambda p: p.edit("src/d.in.csv", "d2-longer"), True, ["C15", "C02"], ext=["csv"], extra={"src/d.in.csv": "d1"}, why=" (the name ends with .csv)"), "name with several dots"),
         C("ext-suffix-of-name", skip_then("edit src/d.tar.gz (extensions: [tar.gz])", lambda p: p.edit("src/d.tar.gz", "d2-longer"), True, ["C15", "C02"], ext=["tar.gz"], extra={"src/d.tar.gz": "d1"}), "multi-dot extension"),
+        C("ext-multipart-nomatch", skip_then("edit src/domain.csv (extensions: [in.csv])", lambda p: p.edit("src/domain.csv", "x2-longer"), False, ["C15", "C12"], ext=["in.csv"], extra={"src/domain.csv": "x1", "src/a.in.csv": "y1"}, why=" (domain.csv does not end with .in.csv: the dot is part of the extension)"), "multi-part extension without its dot: the dot is added"),
+        C("ext-multipart-match", skip_then("edit src/a.in.csv (extensions: [in.csv])", lambda p: p.edit("src/a.in.csv", "y2-longer"), True, ["C15", "C02"], ext=["in.csv"], extra={"src/domain.csv": "x1", "src/a.in.csv": "y1"}), "multi-part extension matches"),
         C("ext-empty-entry", skip_then("edit src/a.txt (extensions: ['', csv])", lambda p: p.edit("src/a.txt", "a2-longer"), False, "C15", ext=["", "csv"], why=" (the empty entry is ignored, the filter is .csv)"), "empty entry ignored"),
         C("ext-only-empty", skip_then("edit src/a.txt (extensions: [''])", lambda p: p.edit("src/a.txt", "a2-longer"), True, ["C15", "C02"], ext=[""], why=" (no filter)"), "only empty entries = no filter"),
         C("workdir-inside", skip_then("edit src/.zinoma/x", lambda p: p.edit("src/.zinoma/x", "2-longer"), False, "C15", extra={"src/.zinoma/x": "1"}, why=" (inside a directory named .zinoma)"), ".zinoma directory below the listed path is pruned"),
@@ -545,6 +616,8 @@ def cases(seed):
     for sig in ("KILL", "TERM"):
         for rev in (False, True):
             out.append(C("interrupt-%s%s" % (sig, "-revert" if rev else ""), kill_case(sig, rev), "zinoma interrupted mid-build"))
+    for k in range(16 if tier == "thorough" else 4):
+        out.append(C("random-history-%d" % k, random_history_case(seed, k), "seeded random history of edits against the reference model"))
     for imp in (False, True):
         for op in ("ver", "src"):
             out.append(C("xoutput-%s-%s" % ("imported" if imp else "local", op), xoutput_case(imp, op), "X.output inheritance"))
